@@ -68,6 +68,12 @@ MUTANTS = [
     ("C12", "SearchLink", "lines/finders.py", "          l.is_compatible(orseg1, orseg2, cigar, True):\n        return l", "          l.is_compatible(orseg1, orseg2, cigar, False):\n        return l"),
     ("C12", "SearchLink", "lines/finders.py", "      if isinstance(l, gfapy.line.edge.Link) and \\\n          l.is_compatible(orseg1, orseg2, cigar, True):\n        return l\n    return None", "      if isinstance(l, gfapy.line.edge.Link) and \\\n          l.is_compatible(orseg1, orseg2, cigar, True):\n        found = l\n    return None"),
     ("C12", "SearchLink", "lines/finders.py", "      if isinstance(l, gfapy.line.edge.Link) and \\\n          l.is_compatible(orseg1, orseg2, cigar, True):", "      if not isinstance(l, gfapy.line.edge.Link) or \\\n          l.is_compatible(orseg1, orseg2, cigar, True):"),
+    ("C08", "SetExistingField", "line/common/field_data.py", "      if value is not None and not isinstance(value, str) and \\\n          not gfapy.is_placeholder(value):\n        raise gfapy.TypeError(", "      if False:\n        raise gfapy.TypeError("),
+    ("C09", "SetExistingField", "line/common/field_data.py", '          self.record_type in ["E", "G", "O", "U"] and \\', '          self.record_type in ["E", "G"] and \\'),
+    ("C05", "DependentLinesTables", "line/group/ordered/ordered.py", 'DEPENDENT_LINES = ["paths", "sets"]', 'DEPENDENT_LINES = ["paths"]'),
+    ("C05", "DependentLinesTables", "line/edge/gfa2/gfa2.py", 'DEPENDENT_LINES = ["paths", "sets"]', 'DEPENDENT_LINES = ["sets"]'),
+    ("C12", "PathInitializeLinks", "line/group/path/references.py", "            not l.is_compatible_direct(from_segment, to_segment, cigar):", "            True:"),
+    ("C12", "IsReplacedByComplement", "line/common/update_references.py", "      return not oldref.is_same(newref)", "      return True"),
     ("C10", "TakeBackAssignedIds", "gfa.py", "    self._max_int_name = max_int_name", "    pass"),
     ("C10", "TakeBackAssignedIds", "gfa.py", "    for rt in records:\n      self._records[rt] = records[rt]", "    for rt in records:\n      self._records[rt] = records[\"L\"]"),
     ("C10", "TakeBackAssignedIds", "gfa.py", '      if l.is_connected() and l.get("ID") is not None:', '      if l.get("ID") is not None:'),
